@@ -177,3 +177,12 @@ reg("C27", "exploration", "E1",
     "[runtime, verb, xargs, binds|workdir, image, tail] with tail = native argv with every host path p replaced by <root>p, one "
     "single-argument ro bind per parent directory, the cache root rw, workdir = <root><job dir>.",
     "No container runtime is installed: everything is judged at the environments.base.execute seam; flag spellings -v/--volume, -w/--workdir, -B/--bind, --pwd accepted.")
+
+reg("C28", "fault_enumeration", "E5b",
+    "exhaustive enumeration of scheduler answer sequences x user option subsets against the real SLURM/SGE workers with a fake scheduler",
+    "A fake scheduler at pydra.workers.base.read_and_display_async answers sbatch/squeue/sacct/scontrol (SLURM) and qsub/qstat/qacct "
+    "(SGE); its cluster side runs the batch script pydra wrote (real load_and_run) or makes it raise or not run. All answer sequences "
+    "up to depth 4 (quick) / 6 (thorough) x every subset of user -J/-o/-e (-N/-o/-e) options, through the public "
+    "Submitter(worker=...)(task) path: success iff COMPLETED and a good result exists; FAILED => error; CANCELLED/TIMEOUT/"
+    "PREEMPTED/eviction => requeue or resubmission and not failed; every user option exactly once on every submit command line.",
+    "Polling sleeps are zero-delay; a reference verdict is computed from the transcript of questions and answers only; missing accounting only forbids reporting success.")
